@@ -255,14 +255,19 @@ def check_rebin(inp, out, rng, fs, known):
 
 
 def _replay(args):
-    blocks, fs, seed = args
+    blocks, fs, seed, stride = args
     rng = random.Random(seed)
     n, nontriv, viol, known, samples = 0, [], [], set(), []
     seen = set()
+    nh = 0
     for b in blocks:
         st = parse_state(b.strip())
-        n += 1
         part, inp, out = st['part'], st['inp'], st['out']
+        if part == 'hist':
+            nh += 1
+            if nh % stride:      # thorough tier: TLC checks every histogram state, a fixed eighth of them is replayed (still several times the quick instance)
+                continue
+        n += 1
         try:
             with warnings.catch_warnings():
                 warnings.simplefilter('ignore')
@@ -307,7 +312,7 @@ def run(chk):
     if res.dump_path and os.path.exists(res.dump_path):
         parts = par.split_dump(res.dump_path, 64)
         tot = 0
-        for n, nontriv, viol, known, samples in par.pmap(_replay, [(c, fs, chk.seed * 100 + i) for i, c in enumerate(parts)], chunksize=1):
+        for n, nontriv, viol, known, samples in par.pmap(_replay, [(c, fs, chk.seed * 100 + i, 1 if quick else 8) for i, c in enumerate(parts)], chunksize=1):
             tot += n
             for x in nontriv:
                 chk.nontrivial(x)
